@@ -8,6 +8,7 @@ import urllib.parse
 
 import multidict
 
+from hippolyzer.lib.base import llsd
 from hippolyzer.lib.base.datatypes import UUID
 from hippolyzer.lib.base.helpers import proxify
 from hippolyzer.lib.base.message.llsd_msg_serializer import LLSDMessageSerializer
@@ -162,6 +163,9 @@ class EventQueueManager:
         self.inject_event(self.llsd_message_serializer.serialize(message, True))
 
     def inject_event(self, event: dict):
+        # Refuse what we wouldn't be able to deliver now, rather than having it take every
+        # other pending event down with it when the poll response gets written.
+        llsd.format_xml(event)
         self._queued_events.append(event)
         if self._region:
             circuit: ProxiedCircuit = self._region.circuit
